@@ -847,23 +847,28 @@ def r4_helpers(ctx):
                         % text(n.func))
     ctx.floor("C01.R4", found, 1, "bisect call in _coord2pos")
     lin = 0
-    for n in f.own_nodes():
-        if isinstance(n, ast.If) and any(isinstance(b, ast.Break) for b in n.body):
-            p = pat.cmp_parts(ctx, f, n.test)
-            if p and "coords[i]" in (p[1] + p[2]).replace(" ", ""):
-                lin += 1
-                ordered = any("_ordered" in text(t) and pol
-                              for t, pol in guards(n))
-                expect = ("<=", "coord", "coords[i]") if ordered else \
-                    ("==", "coords[i]", "coord")
-                got = (p[0], p[1], p[2])
-                if got == expect or (p[0] == "==" and not ordered):
-                    ctx.ok("C01.R4", f, n, "linear search stops at the first "
-                           "coordinate %s the target" % (">=" if ordered else "=="))
-                else:
-                    ctx.bad("C01.R4", f, n, "start_pos search in _coord2pos "
-                            "stops at `%s` instead of the first coordinate >= "
-                            "the target" % text(n.test))
+    cparam = f.params[1]
+    for lp in f.own_nodes():
+        if not (isinstance(lp, ast.For) and isinstance(lp.target, ast.Name)):
+            continue
+        iv = lp.target.id
+        for n in lp.body:
+            if not (isinstance(n, ast.If) and any(isinstance(b, ast.Break) for b in n.body)):
+                continue
+            a = pat.catom(ctx, f, n.test, True, False)
+            if a[0] == "truth" or not any(x.endswith("[%s]" % iv) for x in a[1:]):
+                continue
+            lin += 1
+            elem = [x for x in a[1:] if x.endswith("[%s]" % iv)][0]
+            ordered = any("_ordered" in text(t) and pol for t, pol in guards(n))
+            expect = pat.A("<=", cparam, elem) if ordered else pat.A("==", elem, cparam)
+            if a == expect or (a == pat.A("==", elem, cparam) and not ordered):
+                ctx.ok("C01.R4", f, n, "linear search stops at the first "
+                       "coordinate %s the target" % (">=" if ordered else "=="))
+            else:
+                ctx.bad("C01.R4", f, n, "start_pos search in _coord2pos "
+                        "stops at `%s` instead of the first coordinate >= "
+                        "the target" % text(n.test))
     ctx.floor("C01.R4", lin, 1, "linear search in _coord2pos")
     # _coordExists
     f = ctx.method("Fiber", "_coordExists")
